@@ -25,6 +25,10 @@ from . import common as C
 NATIVE = {1: "uint8", 2: "int16", 4: "int32", 8: "double"}
 C_NATIVE = {1: "unsigned char", 2: "short", 4: "int", 8: "double"}
 
+# the real code gets this long per call (a layout takes milliseconds); longer = it does not terminate = `err internal`
+LIMIT_S = 10.0
+MAX_HANGS = 2       # per process: after that many expiries the remaining cases of the process are skipped
+
 # A field spec is ("n", width, length|None) or ("s", [specs], length|None) for a nested struct
 Spec = Tuple
 
@@ -92,7 +96,8 @@ class Built:
         P, p = self.P, self.p
         n = len(self.sdf.fields)
         try:
-            p.validate_msg_def(self.sdf)
+            with C.time_limit(LIMIT_S):
+                p.validate_msg_def(self.sdf)
         except BaseException as e:  # noqa: BLE001  (every exception is an observation)
             if isinstance(e, (KeyboardInterrupt, SystemExit)):
                 raise
@@ -136,6 +141,8 @@ class Built:
 
 def run_case(cid: str, auto_pad: bool, spec_fields: Sequence[Spec], want_ct: bool = True):
     """Returns (protocol lines, Built or None)."""
+    if C.hangs_seen() >= MAX_HANGS:
+        return None, None
     P, p = _parser(auto_pad)
     b = Built(P, p, spec_fields, name=f"S{cid}")
     if b.child_err is not None:
@@ -311,7 +318,8 @@ def _parse_group(auto_pad: bool, defs, d: str, reuse: bool = False):
                              if any(k == "m" for _n, _b, k in defs) else
                              _yaml_of(_poison(defs)) + "message_defs:\n  ZZ_DUP_A:\n    id: 4000\n    fields: null\n  ZZ_DUP_B:\n    id: 4000\n    fields: null\n")
         try:
-            p.parse(bad)
+            with C.time_limit(LIMIT_S):
+                p.parse(bad)
         except BaseException as e:  # noqa: BLE001  the failure is intended
             if isinstance(e, (KeyboardInterrupt, SystemExit)):
                 raise
@@ -319,7 +327,8 @@ def _parse_group(auto_pad: bool, defs, d: str, reuse: bool = False):
     # struct_defs are parsed before message_defs: order the prefix the same way
     open(path, "w").write(_yaml_of(defs))
     try:
-        p.parse(path)
+        with C.time_limit(LIMIT_S):
+            p.parse(path)
     except BaseException as e:  # noqa: BLE001
         if isinstance(e, (KeyboardInterrupt, SystemExit)):
             raise
@@ -330,6 +339,8 @@ def _parse_group(auto_pad: bool, defs, d: str, reuse: bool = False):
 def run_yaml_group(gid: str, auto_pad: bool, defs, reuse: bool = False) -> List[Tuple[str, List[str]]]:
     """Returns [(case id, protocol lines)] — one case per definition up to and including the first rejected one."""
     # the parser handles every struct_def of a file before any message_def
+    if C.hangs_seen() >= MAX_HANGS:
+        return []
     defs = [x for x in defs if x[2] == "s"] + [x for x in defs if x[2] == "m"]
     nat = _natural(defs)
     d = tempfile.mkdtemp(prefix="pyrtma_verif_lay_")
